@@ -138,6 +138,9 @@ SUMMARY_RE = re.compile(
     r"^(?:Found \d+ errors? in \d+ files? \((?:checked \d+ source files?|errors prevented further checking)\)"
     r"|Success: no issues found in \d+ source files?)$"
 )
+# notices about the command line itself (corpus `# flags:`), printed on stdout by option processing; they are not
+# reactions to the input files, so the message-shape part of the oracle does not apply to them
+OPTION_NOTICE_RE = re.compile(r"^Warning: (?:\S+ is already enabled by default|--\S+ is deprecated; use \S+ instead)$")
 _FRAME_RE = re.compile(r'^\s*File "([^"]+)", line (\d+), in (.+)$')
 _EXC_LINE_RE = re.compile(r"^([A-Za-z_][\w.]*)(?::.*)?$")
 
@@ -182,7 +185,7 @@ def judge_output(status: int | None, stdout: str, stderr: str) -> list[tuple[str
     both = stdout + ("\n" if stdout and not stdout.endswith("\n") else "") + stderr
     so_lines = stdout.splitlines()
     se_lines = stderr.splitlines()
-    odd_stdout = [ln for ln in so_lines if not (DIAG_RE.match(ln) or SUMMARY_RE.match(ln))]
+    odd_stdout = [ln for ln in so_lines if not (DIAG_RE.match(ln) or SUMMARY_RE.match(ln) or OPTION_NOTICE_RE.match(ln))]
     odd_stderr = [ln for ln in se_lines if not DIAG_RE.match(ln)]
     crashed = (
         any("INTERNAL ERROR" in ln for ln in so_lines + se_lines)
@@ -446,7 +449,8 @@ def _daemon_mutant(workdir: str, original: str, mutant: str, first: dict[str, An
         from collections import Counter
 
         ca, cb = Counter(a), Counter(b)
-        strip = lambda s: re.sub(r"^[^\n:]+(?::\d+)*: ", "", s)  # noqa: E731
+        # cause level: which message (template) was lost or gained, not where or about which names/types
+        strip = lambda s: re.sub(r'"[^"]*"', '"_"', re.sub(r"^[^\n:]+(?::\d+)*: ", "", s))  # noqa: E731
         diff = sorted({"-" + strip(x) for x in (ca - cb)} | {"+" + strip(x) for x in (cb - ca)})
         if first["status"] != r3["status"]:
             diff.append(f"status:{first['status']}->{r3['status']}")
